@@ -48,6 +48,7 @@ def patch_spec(case):
 
 def cases(tier, seed):
     out = [Case(f"kernel:n={n}", n=n, seed=seed) for n in BOUNDS[tier]["sites"]] + [Case("exists-solution", n=0, seed=seed)]
+    out.append(Case("stability:weak-inelastic-scattering", n=-2, seed=seed))
     out.append(Case("retry:R=1", n=-1, R=1, seed=seed))
     if tier == "thorough":
         out.append(Case("retry:R=2", n=-1, R=2, seed=seed))
@@ -109,7 +110,57 @@ def body_retry(H, case):
     H.prove("reported dt > 0", dt > 0)
 
 
+def body_stability(H, case):
+    """'... on the branch that stays finite when gamma or psi vanish', within the floating-point range: the
+    reported |psi'|^2 must not be computed by a formula that cancels as z -> 0.  Decided as a conditioning
+    claim over the reals: one rounding error of the square root of the discriminant (relative 2^-52) changes
+    the reported |psi'|^2 by less than 1e-4 of its value (for the documented formula 2|w|^2/((2c+1)+sqrt) the
+    change is below 2^-52; for (2c+1-sqrt)/(2|z|^2) it is unbounded as z -> 0).  A counter-example is
+    replayed on the real kernel in doubles, where the reported |psi'|^2 must equal |reported psi'|^2 to 1e-6."""
+    from tdgl.solver.solver import TDGLSolver
+
+    psi, lap = H.cplx("psi", lo=-1.5, hi=1.5), H.cplx("lap", lo=-2.0, hi=2.0)
+    mu, eps = H.real("mu", lo=-2.0, hi=2.0), H.real("eps", lo=-1.0, hi=1.0)
+    gamma = H.real("gamma", lo=0.0, hi=1e-6)  # weak inelastic scattering: z is tiny but not zero
+    u, dt = H.real("u", lo=0.5, hi=6.0), H.real("dt", lo=1e-4, hi=0.1)
+    eta = H.real("eta", lo=-2.0**-52, hi=2.0**-52)
+    psi_arr = H.array([psi]) if H.mode == "sym" else np.array([psi], dtype=complex)
+    absq_arr = H.array([H.abs2(psi)]) if H.mode == "sym" else np.abs(psi_arr) ** 2
+    lap_arr = H.array([lap]) if H.mode == "sym" else np.array([lap], dtype=complex)
+    if H.mode == "sym":
+        CTX.calls.clear()
+    out = TDGLSolver.solve_for_psi_squared(psi=psi_arr, abs_sq_psi=absq_arr, mu=H.array([mu]), epsilon=H.array([eps]), gamma=gamma, u=u, dt=dt,
+                                           psi_laplacian=_OpaqueLaplacian(lap_arr))
+    if out is None:
+        return
+    new_psi, X = out
+    Xi, Pi = K.at(X, 0), K.at(new_psi, 0)
+    name = "one rounding error of sqrt(discriminant) changes the reported |psi'|^2 by < 1e-4 (no cancellation as z -> 0)"
+    if H.mode == "sym":
+        sq_args = [a[0] for (nm, a) in CTX.calls if nm == "sqrt"]
+        abs_args = [a[0] for (nm, a) in CTX.calls if nm in ("absolute", "abs")]
+        if not sq_args or len(abs_args) != 2:
+            raise engine.HarnessError("the kernel no longer computes |w|, |z| and one square root as expected: the stability claim has to be restated")
+        s_var = Sc.of(K.at(sq_args[-1], 0)).sqrt()  # the auxiliary variable standing for sqrt(discriminant)
+        # generalise the code's w, z to arbitrary complex W, Z (as in the algebraic claims)
+        wc, zc = Sc.of(K.at(abs_args[0], 0)), Sc.of(K.at(abs_args[1], 0))
+        W, Z = Sc(z3.Real("W0.re"), z3.Real("W0.im")), Sc(z3.Real("Z0.re"), z3.Real("Z0.im"))
+        H.subst = [(wc.re, W.re), (wc.im, W.im), (zc.re, Z.re), (zc.im, Z.im)]
+        Xs = Sc.of(Xi)
+        Xp = Sc(z3.substitute(Xs.re, (s_var.re, s_var.re * (1 + eta.re))))
+        b = 2 * (K.re(wc) * K.re(zc) + K.im(wc) * K.im(zc)) + 1
+        dre, tol = Xp.re - Xs.re, core.to_real(1e-4) * Xs.re  # (the reported |psi'|^2 is real: claimed by the algebraic cases)
+        claim = z3.Implies((b > 0).e, z3.And(dre <= tol, -dre <= tol))
+        H.prove(name, core.SymBool(claim), timeout=120, slice=True)
+        H.subst = None
+    else:
+        m2 = abs(Pi) ** 2
+        H.prove(name, abs(Xi - m2) <= 1e-6 * max(abs(Xi), m2, 1e-300))
+
+
 def body(H, case):
+    if case.n == -2:
+        return body_stability(H, case)
     if case.n == -1:
         return body_retry(H, case)
     if case.n == 0:
